@@ -39,6 +39,20 @@ def hand_docs(s):
     return out
 
 
+HAND_VALID_DOCS = [
+    # an argument the object's own field declares (the interface's field does not), selected in the object's scope
+    ('{ dog { name(lang: "fr") } }', {}),
+    ('{ named { ... on Dog { name(lang: "x") } name } }', {}),
+    ('{ pet { ...F } } fragment F on Dog { name(lang: null) }', {}),
+    # variable usages 5.8.5 allows: a non-null (list) variable at a nullable (list) position, at every nesting level
+    ("query ($v: [Int]!) { echo(l: $v) }", {"v": [1, None]}),
+    ("query ($v: [Int!]!) { echo(l: $v) }", {"v": [1]}),
+    ("query ($v: [Int!]) { echo(l: $v) }", {"v": None}),
+    ("query ($v: Int!) { echo(l: [$v, 2]) }", {"v": 1}),
+    ("query ($v: [In1!]!) { echo(i: {l: $v}) }", {"v": [{"y": True}]}),
+    ("query ($v: Color!) { echo(c: $v) ...F } fragment F on Query { e2: echo(c: $v) }", {"v": "RED"}),
+    ("query ($v: Int = 1) { echo(i: {r: $v}) }", {}),
+]
 SUBSCRIPTION_DOCS = [
     # ONE response key at the root, written several times / reached through fragments
     "subscription { a ... on Subscription { a } }",
@@ -153,11 +167,14 @@ def main(tier_, replay=None):
     ws = c07.witness_schema()
     items = [{"text": q, "variables": {}, "opname": "A" if "subscription A" in q else None, "rule": None,
               "where": "one subscription response key written several times"} for q in SUBSCRIPTION_DOCS]
+    items += [{"text": q, "variables": v, "opname": None, "rule": None, "where": "hand-written valid document"}
+              for q, v in HAND_VALID_DOCS]
     batches.append((ws, list(zip(items, asyncio.run(valcheck.run_docs(ws, items))))))
     problems = valcheck.evaluate("C06_s%d" % seed, batches)
     for fname, err in problems[:2]:
         rep.violation({"property": "C06", "what": "case file failed to evaluate", "file": fname, "stderr": err}, no_input=True)
     total = gen_invalid = refused_valid = 0
+    distinct_valid = set()
     viol, mism = [], []
     for s, pairs in batches:
         for it, o in pairs:
@@ -167,6 +184,7 @@ def main(tier_, replay=None):
             if o["mask"] != 0:
                 gen_invalid += 1          # the generator's fault: the specification model rejects the document
                 continue
+            distinct_valid.add((id(s), it["text"], json.dumps(it["variables"], sort_keys=True, default=repr), it["opname"]))
             if o["tagged"] or o["crash"] or o["syntax"] or o["raised"]:
                 refused_valid += 1
                 viol.append((s, it, o))
@@ -195,7 +213,7 @@ def main(tier_, replay=None):
         "trusted_base": common.TRUSTED_BASE + [
             "Print Assumptions: %d theorems closed; axioms: %s" % (assum["closed"], assum["axioms"] or "none")],
         "theorems": [n for n in names if n.startswith("C06_")],
-        "evaluations": total, "distinct_nontrivial": total - gen_invalid,
+        "evaluations": total, "distinct_nontrivial": len(distinct_valid),
         "rule": "valid-by-construction documents (+ fixed introspection / diamond documents per schema) on generated schemas with "
                 "interfaces, unions, input objects, custom directives in all 7 executable locations; non-trivial = the "
                 "specification model accepts the document (all 25 rules)",
